@@ -14,8 +14,8 @@
 From Coq Require Import List NArith Bool String.
 From JV.lib Require Import Bytes.
 From JV.gen Require Import DirectiveTables TagName.
-From JV.model Require Import ScannerSem Core TagTitle Catalog.
-From JV.proofs Require Import CatalogProofs.
+From JV.model Require Import ScannerSem Core TagTitle Catalog JsonString.
+From JV.proofs Require Import CatalogProofs JsonStringProofs JsonKeyProofs.
 Import ListNotations.
 Open Scope N_scope.
 
@@ -72,8 +72,9 @@ Print Assumptions json_keys_unique_refuted.
    Strongest true statement: under the guard that no JSON-RPC method name contains a space.
    MISSING for the JSON text level: iid_string is the Go string; encoding/json then writes U+FFFD for
    every byte that is not valid UTF-8, which is not injective (GET /a\xff and GET /a\xfe become one
-   key: found by the dynamic part, class invalid-utf8-key).  A model of that encoder plus the guard
-   "paths and method names are valid UTF-8 without U+FFFD" would close the gap. *)
+   key: found by the dynamic part, class invalid-utf8-key).  That encoder is modelled in
+   model/JsonString.v and the statement is lifted to the JSON text, under the additional guard "the key
+   is valid UTF-8", in the last part of this file (json_text_keys_unique_partial). *)
 Theorem json_keys_unique_partial : forall pp bt banned post c,
   build pp bt banned post = COk c ->
   (forall i x, In (i, x) (c_inters c) -> i_proto i = PRpc -> ~ In 32 (i_method i)) ->
@@ -129,3 +130,131 @@ Theorem title_is_info_title : forall c,
   japi_title c = match c_info c with Some i => in_title i | None => [] end.
 Proof. exact title_is_info_title_lemma. Qed.
 Print Assumptions title_is_info_title.
+
+(* ================= the JSON text level: keys as encoding/json writes them =================
+   Model: model/JsonString.v.  json_quote s is what json.Marshal makes of the Go string s
+   (appendString with escapeHTML = true: the two quotes; a backslash before a quote or a backslash;
+   \n \r \t \b \f; \u00XX for the other control bytes and for < > &; \u2028 and \u2029 for these two code
+   points; \ufffd for every byte that starts no valid UTF-8 sequence; everything
+   else copied).  The generated ordered maps (catalog/*_gen.go MarshalJSON) write every key with
+   json.Marshal(k); the model is compared on every run (c09.py stage_json_keys) with json.Marshal,
+   utf8.Valid, json.Unmarshal, with the key texts of one-entry Servers / UserTypes / UserRules / Tags /
+   Interactions collections inside Catalog.ToJson, and with the interaction keys of whole projects.
+   Proofs: proofs/JsonStringProofs.v, proofs/JsonKeyProofs.v.
+
+   Covered: the TEXT of every key of the five ordered maps.  NOT covered: the JSON text around the keys
+   (values, nesting, the fixed member names of the structs), the equality of the indented and compact
+   forms, schema contents; these stay with the dynamic part. *)
+(* the reader gives back every valid UTF-8 string.  The byte-range hypothesis of lib/Bytes.v
+   (all_bytes s = true) is not assumed: it follows from valid_utf8 (next theorem) *)
+Theorem json_unquote_quote : forall s,
+  valid_utf8 s = true -> json_unquote (json_quote s) = Some s.
+Proof. exact unquote_quote. Qed.
+Print Assumptions json_unquote_quote.
+
+Theorem valid_utf8_is_bytes : forall s, valid_utf8 s = true -> all_bytes s = true.
+Proof. exact valid_utf8_all_bytes. Qed.
+Print Assumptions valid_utf8_is_bytes.
+
+Theorem json_quote_injective_on_valid_utf8 : forall a b,
+  valid_utf8 a = true -> valid_utf8 b = true -> json_quote a = json_quote b -> a = b.
+Proof. exact JsonStringProofs.json_quote_injective_on_valid_utf8. Qed.
+Print Assumptions json_quote_injective_on_valid_utf8.
+
+(* REFUTED without "valid UTF-8": /a\xff and /a\xfe are different byte strings with one JSON text
+   (the recorded finding C09/invalid-utf8-key-collapse) *)
+Theorem json_quote_not_injective_refuted :
+  collapse_a <> collapse_b /\ all_bytes collapse_a = true /\ all_bytes collapse_b = true /\
+  valid_utf8 collapse_a = false /\ valid_utf8 collapse_b = false /\
+  json_quote collapse_a = json_quote collapse_b /\
+  json_quote collapse_a = [34; 47; 97; 92; 117; 102; 102; 102; 100; 34].
+Proof. exact JsonStringProofs.json_quote_not_injective_refuted. Qed.
+Print Assumptions json_quote_not_injective_refuted.
+
+(* for EVERY byte string, valid or not: the text of a key holds no raw control byte and nothing that
+   is no byte ... *)
+Theorem json_key_text_printable : forall s, Forall (fun b => 32 <= b < 256) (json_quote s).
+Proof. exact json_quote_printable. Qed.
+Print Assumptions json_key_text_printable.
+
+(* ... is valid UTF-8 ... *)
+Theorem json_key_text_valid_utf8 : forall s, valid_utf8 (json_quote s) = true.
+Proof. exact json_quote_valid_utf8. Qed.
+Print Assumptions json_key_text_valid_utf8.
+
+(* ... and cannot break out of its string: in any text that continues after it, a JSON string lexer
+   that has consumed the opening quote (string_rest: a backslash hides the next byte, the first quote
+   not hidden closes) stops exactly at the closing quote json_quote wrote *)
+Theorem json_key_text_delimited : forall s t,
+  exists o, json_quote s ++ t = 34 :: o ++ 34 :: t /\ string_rest (o ++ 34 :: t) = Some t.
+Proof. exact json_quote_delimited. Qed.
+Print Assumptions json_key_text_delimited.
+
+Theorem json_key_text_length : forall s,
+  (List.length s + 2 <= List.length (json_quote s) <= 6 * List.length s + 2)%nat.
+Proof. exact json_quote_length. Qed.
+Print Assumptions json_key_text_length.
+
+(* ---- no repeated key in the JSON text of "interactions" ----
+   FULL statement (false): forall ..., build ... = COk c ->
+     NoDup (map (fun e => json_quote (iid_string (fst e))) (c_inters c)).
+   It fails for two reasons, each with a witness: JSON-RPC method names with a space
+   (json_keys_unique_refuted) and ids that are not valid UTF-8 (json_text_keys_unique_refuted below).
+   Strongest true statement: under both guards.  What is missing for the whole property is not in
+   this statement but around it (see the head of this part). *)
+Theorem json_text_keys_unique_partial : forall pp bt banned post c,
+  build pp bt banned post = COk c ->
+  (forall i x, In (i, x) (c_inters c) -> i_proto i = PRpc -> ~ In 32 (i_method i)) ->
+  (forall i x, In (i, x) (c_inters c) -> valid_utf8 (iid_string i) = true) ->
+  NoDup (map (fun e => json_quote (iid_string (fst e))) (c_inters c)).
+Proof. exact json_text_keys_unique_partial_lemma. Qed.
+Print Assumptions json_text_keys_unique_partial.
+
+(* the same with the guard on what the document says: method names and paths *)
+Theorem json_text_keys_unique_by_parts_partial : forall pp bt banned post c,
+  build pp bt banned post = COk c ->
+  (forall i x, In (i, x) (c_inters c) -> i_proto i = PRpc -> ~ In 32 (i_method i)) ->
+  (forall i x, In (i, x) (c_inters c) -> valid_utf8 (i_method i) = true /\ valid_utf8 (i_path i) = true) ->
+  NoDup (map (fun e => json_quote (iid_string (fst e))) (c_inters c)).
+Proof. exact json_text_keys_unique_by_parts_lemma. Qed.
+Print Assumptions json_text_keys_unique_by_parts_partial.
+
+(* REFUTED without the second guard: JSIGHT 0.3 / GET /a\xff {200 any} / GET /a\xfe {200 any} is accepted
+   with two interactions, two different ids with two different String()s, and ONE JSON key *)
+Theorem json_text_keys_unique_refuted :
+  exists c x1 x2, ex_build ex_utf8_forest = COk c /\
+    c_inters c = [(ex_id_ff, x1); (ex_id_fe, x2)] /\
+    ex_id_ff <> ex_id_fe /\ iid_string ex_id_ff <> iid_string ex_id_fe /\
+    map (fun e => json_quote (iid_string (fst e))) (c_inters c) =
+      [bs """http GET /a\ufffd"""; bs """http GET /a\ufffd"""].
+Proof. exact utf8_json_key_repeated. Qed.
+Print Assumptions json_text_keys_unique_refuted.
+
+(* ---- the other four maps: the key is the name itself ---- *)
+Theorem json_text_server_keys_unique_partial : forall pp bt banned post c,
+  build pp bt banned post = COk c ->
+  (forall n x, In (n, x) (c_servers c) -> valid_utf8 n = true) ->
+  NoDup (map (fun e => json_quote (fst e)) (c_servers c)).
+Proof. exact json_text_server_keys_unique_lemma. Qed.
+Print Assumptions json_text_server_keys_unique_partial.
+
+Theorem json_text_type_keys_unique_partial : forall pp bt banned post c,
+  build pp bt banned post = COk c ->
+  (forall n x, In (n, x) (c_types c) -> valid_utf8 n = true) ->
+  NoDup (map (fun e => json_quote (fst e)) (c_types c)).
+Proof. exact json_text_type_keys_unique_lemma. Qed.
+Print Assumptions json_text_type_keys_unique_partial.
+
+Theorem json_text_enum_keys_unique_partial : forall pp bt banned post c,
+  build pp bt banned post = COk c ->
+  (forall n x, In (n, x) (c_enums c) -> valid_utf8 n = true) ->
+  NoDup (map (fun e => json_quote (fst e)) (c_enums c)).
+Proof. exact json_text_enum_keys_unique_lemma. Qed.
+Print Assumptions json_text_enum_keys_unique_partial.
+
+Theorem json_text_tag_keys_unique_partial : forall pp bt banned post c,
+  build pp bt banned post = COk c ->
+  (forall n x, In (n, x) (c_tags c) -> valid_utf8 n = true) ->
+  NoDup (map (fun e => json_quote (fst e)) (c_tags c)).
+Proof. exact json_text_tag_keys_unique_lemma. Qed.
+Print Assumptions json_text_tag_keys_unique_partial.
